@@ -26,7 +26,7 @@ def corpus(tier, seed):
     for nl in netlist.g1_sized_trailing_open():
         items.append((('nl', nl.to_json(), 'verilog'), 3, 'plain'))
     for nl in netlist.g2_shapes():
-        for style in ('bench', 'verilog', 'lean'):
+        for style in ('bench', 'verilog', 'lean', 'vbf'):
             for sims in (1, 3, 8, 9, 17):
                 items.append((('nl', nl.to_json(), style), sims, 'plain'))
             items.append((('nl', nl.to_json(), style), 9, 'cb'))
@@ -286,7 +286,7 @@ def run(tier, seed):
         'functions_encoded': common.fn_sha(LogicSim.s_to_c, LogicSim.c_prop, LogicSim.c_to_s, LogicSim.s_ppo_to_ppi, LogicSim.cycle,
                                            logic_sim._prop_cpu, ksim.SimOps.__init__, kcircuit.Circuit.topological_order),
         'bounds': {'sims': [1, 3, 8, 9, 17], 'cycles': [1, 2, 3], 'g3_random_circuits': 40 if tier == 'quick' else 1200,
-                   'g3_limits': 'inputs<=6 gates<=14 dff<=3 latch<=1 depth<=6', 'styles': ['bench', 'verilog', 'lean']},
+                   'g3_limits': 'inputs<=6 gates<=14 dff<=3 latch<=1 depth<=6', 'styles': ['bench', 'verilog', 'lean', 'vbf (branch forks)']},
         'exhaustive': False,
         'summary': f'{rep.counts["circuits"]} instances, {rep.counts["obligations"]} obligations, {rep.counts["discharged"]} discharged',
     }
